@@ -311,7 +311,7 @@ def gen_cases(ctx: Check) -> list[Case]:
     cases: list[Case] = []
     small = ctx.pick(range(1, 7), range(1, 9))
     wide = ctx.pick([7, 8, 9, 13, 16, 17, 24, 31, 32, 33, 48, 63, 64], [7, 9, 10, 11, 12, 13, 15, 16, 17, 20, 24, 31, 32, 33, 40, 48, 56, 63, 64])
-    shl_max = ctx.pick(17, 33)  # widest design that includes shift_left (see build)
+    shl_max = ctx.pick(16, 33)  # widest design that includes shift_left (see build)
     nrand = ctx.pick(2000, 100000)
 
     # ---- scalar shifts / rotates: every value, every offset 0..w (and the larger offsets for placeholder 0)
@@ -319,11 +319,11 @@ def gen_cases(ctx: Check) -> list[Case]:
         d = scalar_desc(w)
         cases += _cases(d, scalar_ops(w, range(1 << w), range(w + 1), range(w + 1, 1 << d["ow"])), "exhaustive")
         d = {"g": "generic", "w": w, "ow": d["ow"]}
-        if w <= ctx.pick(4, 5):
+        if w <= ctx.pick(3, 5):
             triples = [(a, b, off) for a in range(1 << w) for b in range(1 << w) for off in range(1 << d["ow"])]
         else:
             triples = [(rng.getrandbits(w), rng.getrandbits(w), off) for off in range(1 << d["ow"]) for _ in range(40)]
-        cases += _cases(d, generic_ops(w, triples), "exhaustive" if w <= ctx.pick(4, 5) else "random")
+        cases += _cases(d, generic_ops(w, triples), "exhaustive" if w <= ctx.pick(3, 5) else "random")
     per = max(2, nrand // (len(wide) * 12))
     for w in wide:
         shl = int(w <= shl_max)
@@ -334,8 +334,10 @@ def gen_cases(ctx: Check) -> list[Case]:
             offs_far = sorted({w + 1, 2 * w, 2 * w + 1, (1 << d["ow"]) - 1, rng.randrange(w + 1, 1 << d["ow"])})
             ops += scalar_ops(w, [x], offs_in, offs_far, shl)
         cases += _cases(d, ops, "random")
+        if ctx.quick and w in (31, 33, 63):
+            continue
         g = {"g": "generic", "w": w, "ow": d["ow"]}
-        triples = [(rng.getrandbits(w), rng.getrandbits(w), rng.choice([0, 1, w - 1, w, rng.randrange(w + 1), rng.randrange(1 << d["ow"])])) for _ in range(per * 4)]
+        triples = [(rng.getrandbits(w), rng.getrandbits(w), rng.choice([0, 1, w - 1, w, rng.randrange(w + 1), rng.randrange(1 << d["ow"])])) for _ in range(per * 6)]
         cases += _cases(g, generic_ops(w, triples), "random")
 
     # ---- vector variants: every content while n*ew is small, all placeholders, offsets 0..n (+ larger for ph 0)
@@ -348,13 +350,14 @@ def gen_cases(ctx: Check) -> list[Case]:
             d = vec_desc(n, ew, style)
             datas = [list(v) for v in itertools.product(range(1 << ew), repeat=n)]
             phs = list(range(1 << ew)) if ew <= 2 else sorted({0, 1, (1 << ew) - 1, rng.getrandbits(ew)})
-            cases += _cases(d, vec_ops(n, ew, datas, range(n + 1), range(n + 1, 1 << d["ow"]), phs), "exhaustive")
+            far = range(n + 1, 1 << d["ow"]) if ctx.thorough else sorted({n + 1, 2 * n, 2 * n + 1, (1 << d["ow"]) - 1})
+            cases += _cases(d, vec_ops(n, ew, datas, range(n + 1), far, phs), "exhaustive")
             if n * ew <= 3:
                 g = vec_desc(n, ew, style, "gvec")
                 triples = [(list(a), list(b), off) for a in itertools.product(range(1 << ew), repeat=n) for b in itertools.product(range(1 << ew), repeat=n) for off in range(1 << g["ow"])]
                 cases += _cases(g, gvec_ops(ew, triples), "exhaustive")
     for n, ew, style in ctx.pick(
-        [(4, 3, "view"), (5, 8, "flat"), (7, 5, "view"), (8, 8, "flat"), (9, 16, "view"), (3, 33, "flat"), (2, 64, "view"), (16, 2, "flat")],
+        [(4, 3, "view"), (5, 8, "flat"), (7, 5, "view"), (8, 8, "flat"), (9, 8, "view"), (3, 33, "flat"), (2, 64, "view"), (16, 2, "flat")],
         [(n, ew, s) for n in (2, 3, 4, 5, 7, 8, 9, 16) for ew, s in ((2, "flat"), (3, "view"), (8, "flat"), (16, "view"), (33, "flat"), (64, "view"))],
     ):
         d = vec_desc(n, ew, style)
